@@ -123,6 +123,21 @@ def check(repo: Repo, rep: Report) -> None:
                "after the queue drained the enabled flag is not reset on every exit: the scheduler cannot be started again")
     # E: the clock is either a float or a datetime for the whole life of the scheduler
     vts = repo.fn(V, "VirtualTimeScheduler")
+    # the spin guard (a run of same-instant actions) moves the clock forward for BOTH clock kinds
+    st = repo.fn(V, "VirtualTimeScheduler.start")
+    bumps = {True: [], False: []}
+    for s_ in sites(st):
+        n_ = s_.node
+        if isinstance(n_, ast.AugAssign) and isinstance(n_.op, ast.Add) and u(n_.target) == "self._clock":
+            for e, p_ in s_.ctx.guards:
+                if isinstance(e, ast.Call) and call_name(e) == "isinstance" and len(e.args) == 2 and u(e.args[0]) == "self._clock" and "datetime" in u(e.args[1]):
+                    positive = not (isinstance(n_.value, ast.Constant) and not n_.value.value)
+                    if positive:
+                        bumps[p_].append(s_)
+    for kind_, nm in ((True, "datetime"), (False, "numeric")):
+        rep.ob("E-clock-kind", st, f"start(): the spin guard advances a {nm} clock", bool(bumps[kind_]),
+               f"the spin guard of start() does not move a {nm} clock forward: an action that keeps rescheduling itself at the same instant "
+               f"never lets virtual time progress, time-based terminators never fire and the run does not finish")
     for mth in vts.children:
         if not mth.is_func or mth.name == "__init__":
             continue
